@@ -237,11 +237,13 @@ class DataSaveable:
         """Saves data as a Matlab file
         
         """
+        # Matlab files hold matrices: a one-dimensional array comes back as
+        # a row; the number of dimensions is stored to undo that on loading
         if with_axis is not None:
             data = self._data_with_axis(with_axis)
-            io.savemat(file, {"data":data})
+            io.savemat(file, {"data":data, "ndim":data.ndim})
         else:
-            io.savemat(file, {"data":self.data})
+            io.savemat(file, {"data":self.data, "ndim":self.data.ndim})
 
     
     def _loadMatlab(self, file, with_axis=None):
@@ -249,7 +251,10 @@ class DataSaveable:
         
         """
         self.set_data_writable()
-        _data = io.loadmat(file)["data"]
+        mfile = io.loadmat(file)
+        _data = mfile["data"]
+        if ("ndim" in mfile) and (int(mfile["ndim"][0,0]) == 1):
+            _data = _data.reshape(-1)
         self.data = self._extract_data_with_axis(_data, with_axis)
         self.set_data_protected()
 
